@@ -248,8 +248,59 @@ def search_conditions():
     return None
 
 
+def search_len_conditions():
+    """comparisons of len(y) with a constant on either side, y: Tuple[int, ...]: the tuple that takes a branch satisfies the
+    length bounds y is narrowed to there"""
+    import re
+    from replay.checkcode import check_code
+    conds = []
+    for op in ("<", "<=", ">", ">=", "==", "!="):
+        for k in (0, 1, 2, 3):
+            conds += [f"len(y) {op} {k}", f"{k} {op} len(y)"]
+    conds += ["len(y) > 1 and len(y) < 3", "1 < len(y) and 3 > len(y)", "not (2 <= len(y))", "len(y) == 1 or 3 == len(y)"]
+    lines = ["from typing import Tuple"]
+    where = []
+    for i, c in enumerate(conds):
+        lines += [f"def f{i}(y: Tuple[int, ...]) -> None:", f"    if {c}:", "        reveal_type(y)", "    else:", "        reveal_type(y)"]
+        where.append((len(lines) - 2, len(lines)))
+    res = check_code("\n".join(lines) + "\n")
+    rev = {}
+    for fl in res:
+        if fl["code"].name == "reveal_type":
+            m = re.search(r"Revealed type is '(.*)'", fl["description"], re.S)
+            rev[fl["lineno"]] = m.group(1) if m else fl["description"]
+
+    def member(t, txt):
+        if txt is None or txt == "Never":
+            return False
+        for part in [p.strip() for p in re.split(r" \| (?![^\[]*\])", txt)]:
+            ok = True
+            m = re.search(r"MinLen\(value=(\d+)\)", part)
+            if m and len(t) < int(m.group(1)):
+                ok = False
+            m = re.search(r"MaxLen\(value=(\d+)\)", part)
+            if m and len(t) > int(m.group(1)):
+                ok = False
+            m = re.fullmatch(r"tuple\[((?:int(?:, )?)*)\]", part)
+            if m is not None and "..." not in part and len([x for x in m.group(1).split(", ") if x]) != len(t):
+                ok = False
+            if part == "tuple[()]" and len(t) != 0:
+                ok = False
+            if ok:
+                return True
+        return False
+    for c, (la, lb) in zip(conds, where):
+        for n in range(0, 5):
+            y = tuple(range(n))
+            taken = bool(eval(c, {"y": y}))
+            txt = rev.get(la if taken else lb)
+            if not member(y, txt):
+                return (f"def f(y: Tuple[int, ...]): if {c}: ... -- a tuple of length {n} takes the {'if' if taken else 'else'} branch, but y is narrowed there to {txt!r}")
+    return None
+
+
 def r_conditions(rec):
-    msg = search_conditions()
+    msg = search_conditions() or search_len_conditions()
     return (True, msg) if msg else (False, "narrowing keeps the actual value on every enumerated condition")
 
 
